@@ -1,39 +1,53 @@
 #!/venv/bin/python
-"""Run every check on every silent twin (scratch copies); a VIOLATION is a false alarm, exit 2 an unrecognised shape."""
-import os, shutil, subprocess, sys, glob, tempfile
+"""Run checks against the behaviour-preserving twins in /verif/twins.
+Usage: twin_run.py [--props C01,C04] [twin-id ...]  (default: all checks x all twins)
+A twin must never produce a violation; exit 2 (ANALYSIS-ERROR) is tolerated but reported."""
+import json, os, shutil, subprocess, sys, tempfile
 from concurrent.futures import ThreadPoolExecutor
 V = "/verif"
-props = sorted(os.path.basename(p)[:-3].upper() for p in glob.glob(f"{V}/sa/props/c[0-9][0-9].py"))
-only = sys.argv[1:]
-def run(t):
-    d = tempfile.mkdtemp(prefix="twinrun_")
+PROPS = [f"C{i:02d}" for i in range(1, 21)]
+
+
+def one(tid, props):
+    d = f"{V}/twins/{tid}"
+    tmp = tempfile.mkdtemp(prefix="twin-", dir="/tmp")
     try:
-        shutil.copytree("/repo/pycaption", os.path.join(d, "pycaption"))
-        p = subprocess.run(f"patch -p1 --no-backup-if-mismatch -s < {V}/twins/{t}/patch.diff", cwd=d, shell=True, capture_output=True, text=True)
-        if p.returncode != 0:
-            return t, {"_": "DOES NOT APPLY"}
-        env = dict(os.environ, VERIF_REPO=d, VERIF_EVIDENCE_DIR=os.path.join(d, "ev"))
-        res = {}
-        for pr in props:
-            r = subprocess.run([f"{V}/check", pr], capture_output=True, text=True, env=env)
-            if r.returncode != 0:
-                lines = [l.strip() for l in r.stdout.splitlines() if l.startswith("  R-") or l.startswith("ANALYSIS-ERROR")]
-                res[pr] = (r.returncode, lines[:2])
-        return t, res
+        shutil.copytree("/repo/pycaption", f"{tmp}/pycaption")
+        r = subprocess.run(["git", "apply", "--unsafe-paths", f"--directory={tmp}", f"{d}/patch.diff"],
+                           cwd=tmp, capture_output=True, text=True)
+        if r.returncode:
+            r = subprocess.run(["patch", "-p1", "-d", tmp, "-i", f"{d}/patch.diff"], capture_output=True, text=True)
+            if r.returncode:
+                return tid, [("apply", "FAILED", r.stdout + r.stderr)]
+        out = []
+        for p in props:
+            env = dict(os.environ, VERIF_REPO=tmp, VERIF_EVIDENCE_DIR=f"{tmp}/ev")
+            c = subprocess.run([f"{V}/check", p], capture_output=True, text=True, env=env, timeout=900)
+            if c.returncode != 0:
+                lines = [l for l in c.stdout.splitlines() if l.startswith(("VIOLATION", "ANALYSIS-ERROR", "  "))][:6]
+                out.append((p, c.returncode, "\n".join(lines)))
+        return tid, out
     finally:
-        shutil.rmtree(d, ignore_errors=True)
-twins = sorted(os.path.basename(p) for p in glob.glob(f"{V}/twins/*"))
-if only: twins = [t for t in twins if t in only or t.split('-')[0] in only]
-with ThreadPoolExecutor(8) as ex:
-    results = list(ex.map(run, twins))
-fa = er = 0
-for t, res in results:
-    if not res:
-        print(f"{t:8s} silent"); continue
-    for pr, v in res.items():
-        if pr == "_": print(f"{t:8s} {v}"); continue
-        rc, lines = v
-        fa += rc == 1; er += rc == 2
-        print(f"{t:8s} {pr} {'FALSE-ALARM' if rc == 1 else 'exit2'}")
-        for l in lines: print("          ", l[:230])
-print(f"twins={len(results)} false_alarms={fa} exit2={er}")
+        shutil.rmtree(tmp, ignore_errors=True)
+
+
+def main():
+    args = sys.argv[1:]
+    props = PROPS
+    if args and args[0] == "--props":
+        props = args[1].split(","); args = args[2:]
+    ids = args or sorted(os.listdir(f"{V}/twins"))
+    fa = e2 = 0
+    with ThreadPoolExecutor(8) as ex:
+        for tid, out in ex.map(lambda t: one(t, props), ids):
+            if not out:
+                print(f"{tid}: silent"); continue
+            for p, rc, txt in out:
+                kind = "FALSE-ALARM" if rc == 1 else f"exit{rc}"
+                fa += rc == 1; e2 += rc != 1
+                print(f"{tid}: {p} {kind}\n{txt}")
+    print(f"false alarms={fa} other-nonzero={e2} twins={len(ids)}")
+    sys.exit(1 if fa else 0)
+
+
+main()
